@@ -17,6 +17,7 @@
 package server
 
 import (
+	"runtime"
 	"context"
 	"encoding/json"
 	"errors"
@@ -57,6 +58,12 @@ type vhnlScenario struct {
 	Closing        []string       `json:"closing"`         // per listener (flattened): shutdown | ctx ; missing = shutdown
 	DropReconnects int            `json:"drop_reconnects"` // reconnection attempts refused before the front lets a listener through again
 	BoundMs        int            `json:"bound_ms"`        // generous bound for every "eventually"
+	// Ghost: "" | "left" | "crashed". A fourth node joins, and is lost (gracefully / by a crash) BEFORE the scenario
+	// proper, so that the three nodes still remember a departed member when the node under test is lost.
+	Ghost string `json:"ghost"`
+	// Extra live nodes (n3, n4, ...) besides the three the listeners know: with five or more peers a leaving node does
+	// not notify everybody itself (Leave stops after the 4th acknowledgement), the rest must follow through gossip.
+	Extra int `json:"extra"`
 }
 
 type vhnlRNode struct {
@@ -573,6 +580,18 @@ func vhnlGood(q vhnlReq) bool {
 
 // ---------------------------------------------------------------- scenario
 
+// vhnlUntilFast spins (no sleep) until f holds or the bound passes
+func vhnlUntilFast(bound time.Duration, f func() bool) bool {
+	end := time.Now().Add(bound)
+	for time.Now().Before(end) {
+		if f() {
+			return true
+		}
+		runtime.Gosched()
+	}
+	return f()
+}
+
 func vhnlUntil(bound time.Duration, f func() bool) bool {
 	deadline := time.Now().Add(bound)
 	for {
@@ -642,7 +661,7 @@ func vhnlRun(sc vhnlScenario) (obs vhnlObs) {
 
 	// ---- cluster of three
 	var gossipAddrs []string
-	for i := 0; i < 3; i++ {
+	for i := 0; i < 3+sc.Extra; i++ {
 		n := vhnlStartNode(fmt.Sprintf("n%d", i), append([]string(nil), gossipAddrs...), sc)
 		nodes = append(nodes, n)
 		gossipAddrs = append(gossipAddrs, n.gossipAddr())
@@ -663,13 +682,47 @@ func vhnlRun(sc vhnlScenario) (obs vhnlObs) {
 					return false
 				}
 			}
-			if len(a.livePeers()) != 2 {
+			if len(a.livePeers()) != len(nodes)-1 {
 				return false
 			}
 		}
 		return true
 	}) {
 		panic("cluster did not form")
+	}
+
+	// ---- an earlier departure that everybody still remembers
+	if sc.Ghost != "" {
+		ghost := vhnlStartNode("ghost", append([]string(nil), gossipAddrs...), sc)
+		if !vhnlUntil(bound, func() bool {
+			for _, a := range nodes {
+				if a.statusOf("ghost") != "active" {
+					return false
+				}
+			}
+			return ghost.statusOf("n0") == "active" && ghost.statusOf("n1") == "active" && ghost.statusOf("n2") == "active"
+		}) {
+			panic("the fourth node did not join")
+		}
+		want := "left"
+		if sc.Ghost == "crashed" {
+			want = "unreachable"
+			ghost.crash()
+		} else {
+			ghost.srv.Shutdown()
+		}
+		ghost.down = true
+		if !vhnlUntil(bound, func() bool {
+			for _, a := range nodes {
+				if a.statusOf("ghost") != want {
+					return false
+				}
+			}
+			return true
+		}) {
+			panic("the departure of the fourth node was not noticed as " + want)
+		}
+		obs.Notes = append(obs.Notes, "ghost node "+want+" at every node before the loss")
 	}
 
 	// ---- listeners, each through its own front: preferred node first, then the others in ring order
@@ -807,7 +860,20 @@ func vhnlRun(sc vhnlScenario) (obs vhnlObs) {
 		// the node dies in the middle of its graceful shutdown
 		done := make(chan struct{})
 		go func() { defer close(done); defer func() { _ = recover() }(); lost.srv.Shutdown() }()
-		time.Sleep(time.Duration(sc.MidMs) * time.Millisecond)
+		if sc.MidMs < 0 {
+			// "partial": the node dies as soon as the first survivor has been told of the departure (at most 2 s), so
+			// that - with luck - the other survivor has to learn of it through gossip
+			vhnlUntilFast(2*time.Second, func() bool {
+				for _, s := range survivors {
+					if s.statusOf(lost.id) == "left" {
+						return true
+					}
+				}
+				return false
+			})
+		} else {
+			time.Sleep(time.Duration(sc.MidMs) * time.Millisecond)
+		}
 		lost.crash()
 		select {
 		case <-done:
